@@ -59,7 +59,7 @@ Fixpoint int_body (s : bytes) (acc cnt : N) (prev : bool) : option (N * N) :=
   | b :: r =>
       if is_digit b then
         if MAX_STR_DIGITS <? cnt + 1 then None
-        else int_body r (acc * 10 + digit_val b) (cnt + 1) true
+        else int_body r (10 * acc + digit_val b) (cnt + 1) true
       else if isb 95 b && prev then int_body r acc cnt false
       else None
   end.
@@ -205,8 +205,12 @@ Fixpoint find_split (c : N) (s : bytes) : option (bytes * bytes) :=
   end.
 
 (* data[start:start+n] and what follows; n may be astronomically large (slices clamp) *)
-Definition take_clamped (n : N) (s : bytes) : bytes * bytes :=
-  if blen s <=? n then (s, []) else (firstn (N.to_nat n) s, skipn (N.to_nat n) s).
+Fixpoint take_clamped (n : N) (s : bytes) : bytes * bytes :=
+  match s with
+  | [] => ([], [])
+  | b :: r => if n =? 0 then ([], s)
+              else let (a, t) := take_clamped (N.pred n) r in (b :: a, t)
+  end.
 
 (* `while data[i] != ord('e'): item, i = _bdecode(data, i); l.append(item)` then `return l, i + 1` *)
 Fixpoint list_loop (dec1 : bytes -> res (bval * bytes)) (steps : nat) (cur : bytes) (acc : list bval)
@@ -249,11 +253,13 @@ Fixpoint dict_loop (dec1 : bytes -> res (bval * bytes)) (steps : nat) (cur : byt
   end.
 
 (* One call of _bdecode(data, start_index) on data[start_index:].  [depth] is the number of nested
-   Python frames still available (RecursionError when none is left).
+   Python frames still available (RecursionError when none is left); [steps] bounds the iterations of
+   each while loop and is set to the datagram's length + 1 by [bdecode] (every iteration consumes a byte,
+   so it never runs out: bdec_no_internal).
    Where bytes.find returns -1 the code computes int() of an empty or meaningless slice; every such
    path ends in DecodeError: for start_index >= 1 the slice is empty (ValueError), for start_index = 0
    (top level only) the result is not a dict. *)
-Fixpoint bdec (depth : nat) (data : bytes) {struct depth} : res (bval * bytes) :=
+Fixpoint bdec (steps depth : nat) (data : bytes) {struct depth} : res (bval * bytes) :=
   match depth with
   | O => Err ERecursion
   | S d =>
@@ -270,9 +276,9 @@ Fixpoint bdec (depth : nat) (data : bytes) {struct depth} : res (bval * bytes) :
             | None => Err EDecode
             end
           else if isb 108 b then                              (* 'l' *)
-            list_loop (bdec d) (S (length rest)) rest []
+            list_loop (bdec steps d) steps rest []
           else if isb 100 b then                              (* 'd' *)
-            dict_loop (bdec d) (S (length rest)) rest []
+            dict_loop (bdec steps d) steps rest []
           else
             match find_split 58 data with
             | Some (num, after) =>
@@ -291,7 +297,7 @@ Fixpoint bdec (depth : nat) (data : bytes) {struct depth} : res (bval * bytes) :
 Definition bdecode (fuel : nat) (data : bytes) : res (list (bval * bval)) :=
   match data with
   | [] => Err EDecode
-  | _ => match bdec fuel data with
+  | _ => match bdec (S (length data)) fuel data with
          | Err e => Err e
          | Ok (BDict d, _) => Ok d
          | Ok (_, _) => Err EDecode
